@@ -98,3 +98,16 @@ def render_flex_pages(case):
                     rec['items'].append(r)
         out.append(rec)
     return out
+
+
+def template_areas(case):
+    """case: dict(value=<the text of a grid-template-areas value>).  Parses it as a style sheet would (tinycss2) and
+    calls the validator.  Returns None when the declaration is invalid, 'none', or the rows as lists of names / None."""
+    import tinycss2
+    from weasyprint.css.utils import remove_whitespace
+    from weasyprint.css.validation import properties
+    tokens = remove_whitespace(tinycss2.parse_component_value_list(case['value']))
+    r = properties.grid_template_areas(tokens)
+    if r is None or r == 'none':
+        return r
+    return [list(row) for row in r]
